@@ -27,7 +27,7 @@ ASSUMPTIONS = ["a re-registration on the same token starts a new registration (i
                "registrations still alive, on what the server transmitted (not on what the lossy network delivered)"]
 EXPECTED_PROBES = ["change_during_render", "coalesced_burst", "change_while_in_flight", "end_by_rst", "end_by_new_request", "end_by_deregister",
                    "end_by_timeout", "end_by_icmp", "end_by_senderr", "end_by_error_notification", "end_by_last_notification", "end_by_shutdown",
-                   "non_registration", "several_observers", "rst_on_non_notification", "observers_share_a_host", "sendmsg_failed", "end_event_during_render", "explicit_notification", "own_observation_under_observers_token", "partition", "change_in_the_iteration_of_an_end"]
+                   "non_registration", "several_observers", "rst_on_non_notification", "observers_share_a_host", "sendmsg_failed", "end_event_during_render", "explicit_notification", "own_observation_under_observers_token", "partition", "change_in_the_iteration_of_an_end", "resource_breaks"]
 
 REACTIONS = ["ack", "ack", "ack", "rst", "silent", "rereg", "dereg"]
 
@@ -40,6 +40,11 @@ def gen(r, tier):
                           "reactions": [r.choice(REACTIONS) if r.chance(0.5) else "ack" for _ in range(12)]})
     if r.chance(0.25):
         r.choice(observers)["sync_change"] = True
+    if r.chance(0.3):
+        # observers that do not want to see error responses (RFC 7967: No-Response 8 = no 4.xx, 16 = no 5.xx, 24 both)
+        for o in observers:
+            if r.chance(0.6):
+                o["no_response"] = r.choice([8, 16, 24])
     ops = []
     t = 1.5
     for _ in range(r.randint(2, 14)):
@@ -50,6 +55,8 @@ def gen(r, tier):
             ops[-1]["explicit"] = True
     if r.chance(0.15):
         ops.append({"op": r.choice(["error_notify", "last_notify"]), "t": round(r.uniform(1.5, t + 1), 4)})
+    if r.chance(0.15):
+        ops.append({"op": "break", "t": round(r.uniform(1.5, t + 1), 4)})
     if r.chance(0.15):
         ops.append({"op": "icmp", "t": round(r.uniform(1.5, t + 1), 4), "observer": r.randrange(nobs)})
     if r.chance(0.15):
@@ -122,6 +129,13 @@ def systematic(tier):
                                           {"id": 2, "con": True, "t": 0.3, "reactions": ["ack"] * 12},
                                           {"id": 3, "con": con, "t": 0.4, "reactions": ["ack"] * 12}],
                             "ops": [{"op": "change", "t": 2.0, "n": 1}, {"op": "change", "t": 4.0, "n": 1}], "net": {}})
+    for nr in (None, 8, 16, 24):
+        for con in (True, False):
+            out.append({"observers": [{"id": 0, "con": con, "t": 0.1, "reactions": ["ack"] * 12, "no_response": nr},
+                                      {"id": 1, "con": True, "t": 0.2, "reactions": ["ack"] * 12}],
+                        "ops": [{"op": "change", "t": 2.0, "n": 1}, {"op": "break", "t": 4.0}, {"op": "change", "t": 6.0, "n": 1}], "net": {}})
+            out.append({"observers": [{"id": 0, "con": con, "t": 0.1, "reactions": ["ack"] * 12, "no_response": nr}],
+                        "ops": [{"op": "change", "t": 2.0, "n": 1}, {"op": "error_notify", "t": 4.0}, {"op": "change", "t": 6.0, "n": 1}], "net": {}})
     for kind in ("error_notify", "last_notify", "icmp", "shutdown", "senderr"):
         for tt in (2.0005, 2.5, 9.0):
             ops = [{"op": "change", "t": 2.0, "n": 2}, {"op": "change", "t": 4.0, "n": 1}, {"op": "change", "t": 12.0, "n": 1}]
@@ -204,7 +218,8 @@ class Observer(ScriptedEndpoint):
         self.reqs += 1
         m = {"type": rc.CON if self.spec["con"] else rc.NON, "code": rc.GET, "mid": 0x3000 + self.spec["id"] * 0x100 + self.reqs,
              "token": self.token, "options": ([(rc.OBSERVE, rc.uint_bytes(observe))] if observe is not None else []) +
-             [(rc.URI_PATH, b"counter")], "payload": b""}
+             [(rc.URI_PATH, b"counter")] + ([(rc.NO_RESPONSE, rc.uint_bytes(self.spec["no_response"]))] if self.spec.get("no_response") else []),
+             "payload": b""}
         self.send(self.srv, msg=m, fate=fate)
         if fate is not None:
             # (scheduled after the datagram: same instant, processed right behind it)
@@ -313,6 +328,10 @@ def execute(sim, scn):
                             "token": bytes(request.token), "state": self.state})
             sim.log("app", "render", len(renders) - 1, self.state)
             state, serial = self.state, len(renders) - 1
+            if getattr(self, "broken", False):
+                # the resource has failed for good and says so in every rendering from now on (a returned error response,
+                # not a raised one): an unsuccessful notification, which ends each registration it is rendered for
+                return Message(code=aiocoap.SERVICE_UNAVAILABLE, payload=b"broken")
             if scn.get("render_delay"):
                 try:
                     await asyncio.sleep(scn["render_delay"])  # the state was read before: a change may land meanwhile
@@ -392,6 +411,11 @@ def execute(sim, scn):
                 counter.change()
             if op["n"] > 1:
                 sim.probe("coalesced_burst")
+        elif k == "break":
+            sim.probe("resource_breaks")
+            global_ends.append((loop.now, "resource_broken", None))
+            counter.broken = True
+            counter.change()
         elif k == "error_notify":
             global_ends.append((loop.now, "error_notification", None))
             counter.updated_state(Message(code=aiocoap.NOT_FOUND, payload=b"gone"))
@@ -580,6 +604,12 @@ def execute(sim, scn):
                     continue
                 if kind == "icmp" and abs(t - t0) <= TOL:
                     continue  # reported in the very instant the registration was made: either order is possible
+                if kind == "resource_broken":
+                    # a lasting condition: it ends the registrations alive when it sets in and every later one (whose
+                    # first rendering is unsuccessful already)
+                    if t < t1 + TOL:
+                        ends.append((max(t, t0), kind))
+                    continue
                 if t0 - TOL <= t < t1 + TOL:
                     ends.append((t, kind))
             for e in sent_all:
@@ -607,11 +637,14 @@ def execute(sim, scn):
                     continue
                 # no new notification after the registration ended (copies of earlier ones excepted); a notification
                 # that announces the end (unsuccessful / last) is itself still sent
-                allowed = 1 if how in ("error_notification", "last_notification") else 0
+                allowed = 1 if how in ("error_notification", "last_notification", "resource_broken") else 0
                 cpos = reg["cancel_pos"]
                 later = [e for e in mine if e["_txpos"] > cpos and rc.opt1(e["msg"], rc.OBSERVE) is not None]
                 enders = [e for e in mine if e["_txpos"] > cpos and rc.opt1(e["msg"], rc.OBSERVE) is None
-                          and e["msg"]["code"] >= 128 or (e["_txpos"] > cpos and e["msg"]["payload"].endswith(b";last"))]
+                          and e["msg"]["code"] >= 128 and e["msg"]["payload"] != b"broken"
+                          or (e["_txpos"] > cpos and e["msg"]["payload"].endswith(b";last"))]
+                # (b"broken": what a resource that has failed for good answers to every request, the observer's later
+                # requests included -- responses, not notifications)
                 if later or len(enders) > allowed:
                     rendered_before = all(e["_rpos"] is not None and e["_rpos"] < cpos for e in later)
                     sim.violation("C08/backlogged-notification-sent-after-end" if (later and rendered_before)
